@@ -59,13 +59,25 @@ def run_one(h_thr, w, cfgtext, n, k, mode, prefix, san='asan', fn=False, extra_a
     x.prefix = list(prefix)
     x.timed_out = False
     x.stdout = b''
-    try:
-        r = sh([h_thr, ini, res, str(n), str(k), mode] + list(extra_args), env=env, cwd=w, timeout=timeout)
-        x.rc = r.returncode
-        x.stdout = r.stdout
-    except subprocess.TimeoutExpired:
-        x.rc = -999
-        x.timed_out = True
+    # a schedule that exceeds the limit is re-run alone with 5x the limit before it is called a hang (the scheduler itself
+    # reports deadlock / livelock with exit codes 77 / 79; a timeout only ever means "slow", e.g. a loaded machine)
+    for attempt, lim in enumerate((timeout, timeout * 5)):
+        try:
+            r = sh([h_thr, ini, res, str(n), str(k), mode] + list(extra_args), env=env, cwd=w, timeout=lim)
+            x.rc = r.returncode
+            x.stdout = r.stdout
+            x.timed_out = False
+            break
+        except subprocess.TimeoutExpired:
+            x.rc = -999
+            x.timed_out = True
+            if attempt == 0:
+                for f in os.listdir(w):
+                    if f not in ('snoopy.ini',):
+                        try:
+                            os.unlink(os.path.join(w, f))
+                        except OSError:
+                            pass
     x.points = []
     x.trace_tail = []
     try:
